@@ -4,7 +4,10 @@ import json, shutil, sys
 from pathlib import Path
 pid, X = sys.argv[1], sys.argv[2]
 wt = Path(f"/tmp/wt/{pid}")
-if pid.endswith("r4"):           # fourth round: A -> G, B -> H
+if pid.endswith("r5"):           # fifth round: A -> I, B -> J
+    pid = pid[:-2]
+    dst = Path(f"/verif/seeded/{pid}{ {'A': 'I', 'B': 'J'}[X] }")
+elif pid.endswith("r4"):           # fourth round: A -> G, B -> H
     pid = pid[:-2]
     dst = Path(f"/verif/seeded/{pid}{ {'A': 'G', 'B': 'H'}[X] }")
 elif pid.endswith("r3"):           # third round: A -> E, B -> F
